@@ -37,6 +37,52 @@ def run(repo: Repo, chk: Check) -> None:
     search(repo, chk)
     accelerator(repo, chk)
     merge(repo, chk)
+    region_operands(repo, chk)
+
+
+def region_operands(repo: Repo, chk: Check) -> None:
+    chk.rule(
+        "C20.region-operands",
+        "an operation placed into a choose region takes the region's block arguments BY POSITION (operand i = argument i): a clone through a "
+        "value mapper keyed by the operation's own operand values merges the positions of a repeated operand (muli %x, %x becomes op(arg1, arg1)) "
+        "and every later kernel re-using that region computes op(b, b)",
+        floor=1,
+    )
+    n = 0
+    funcs = [f for f in (list(repo.all_funcs()) + [m for c in repo.all_classes() for m in c.methods.values()])
+             if f.module.relpath in ("snaxc/dialects/phs.py",) or f.module.relpath.startswith("snaxc/phs/")]
+    for f in funcs:
+        clones = [c for c in ast.walk(f.node) if isinstance(c, ast.Call) and isinstance(c.func, ast.Attribute) and c.func.attr == "clone"]
+        if not clones:
+            continue
+        fl = Flow(f, repo)
+        chk.analysed(f.key)
+        for c in clones:
+            site = next((x for x in fl.sites if x.node is c), None)
+            mapper = c.args[0] if c.args else next((k.value for k in c.keywords if k.arg == "value_mapper"), None)
+            n += 1
+            key = f"{f.key}:clone@{c.lineno}"
+            if mapper is None:
+                chk.ok("C20.region-operands", key, f"{f.module.relpath}:{c.lineno}", "cloned without a value mapper", nontrivial=False)
+                continue
+            m_e = fl.cone(mapper, site, inline=0) if site is not None else mapper
+            recv = ast.unparse(c.func.value)
+            keyed_by_own_operands = False
+            for d in ast.walk(m_e):
+                if isinstance(d, ast.DictComp):
+                    for g_ in d.generators:
+                        if any(isinstance(x, ast.Attribute) and x.attr == "operands" for x in ast.walk(g_.iter)):
+                            tv = {x.id for x in ast.walk(g_.target) if isinstance(x, ast.Name)}
+                            if norm.free_names(d.key) & tv:
+                                keyed_by_own_operands = True
+                if isinstance(d, ast.Call) and callee_name(d) == "dict" and d.args and isinstance(d.args[0], ast.Call) and callee_name(d.args[0]) == "zip" \
+                        and d.args[0].args and any(isinstance(x, ast.Attribute) and x.attr == "operands" for x in ast.walk(d.args[0].args[0])):
+                    keyed_by_own_operands = True
+            chk.result(not keyed_by_own_operands, "C20.region-operands", key, f"{f.module.relpath}:{c.lineno}",
+                       "the value mapper is not keyed by the cloned operation's operand values",
+                       f"`{recv}.clone(..)` maps operands through a dictionary keyed by the operand values: a repeated operand keeps only its last position")
+    if n == 0:
+        chk.ok("C20.region-operands", "snaxc/dialects/phs.py:no-clone", "snaxc/dialects/phs.py", "no operation is cloned through a value mapper in the PHS code", nontrivial=False)
 
 
 # --------------------------------------------------------------------------- abstract path enumeration
